@@ -6,6 +6,10 @@ ROOT = os.path.dirname(os.path.dirname(os.path.abspath(__file__)))
 
 # id -> (technique, level text, level note, design ref)
 CLAIMED = {
+ "C03": ("property-based testing (proptest) + enumerated length-boundary family; panic/overflow/debug-assert monitors under catch_unwind; reference normaliser for the success clause",
+         "Exploration: generated dictionaries x configurations x texts (incl. NUL, controls, unassigned, astral, combining, expanders) x modes x field subsets, every accessor called with debug assertions and overflow checks on; inputs on both sides of the 49,149 / 65,535 byte limits are enumerated for a fixed fallback configuration. No absence claim.",
+         "Trusts the unicode-normalization crate (reference normalised length), proptest, and that debug assertions + overflow checks + catch_unwind make out-of-range accesses visible (get_unchecked reads are additionally covered by the ASan fuzz target when built). Known finding F7 is outside the generated domain.",
+         "DESIGN.md section 4, C03"),
  "C01": ("property-based testing (proptest): generated dictionaries x plugin configurations x texts; partition predicate as validity oracle",
          "Exploration: every generated (dictionary, configuration, text, mode) is analysed by the real library and the partition/surface predicate of the statement is evaluated on the result, including on-demand splits. Holds on everything explored; no absence claim.",
          "Trusts proptest's generators/shrinker, the harness' renderer of CSV/matrix/config text, and Rust's str::is_char_boundary. Only bundled plugins are configured.",
